@@ -35,7 +35,7 @@ def machine_scenario(ctx, i):
     base = (scale**2) * 10 ** r.uniform(-3, 0)
     thr = float(base) if kind == "scalar" else base * r.uniform(0.5, 2, D) if kind == "row" else base * r.uniform(0.5, 2, (C, D))
     return dict(C=C, D=D, w=w, m=m, v=v, thr_kind=kind, thr=thr, trainer=["ml", "map"][int(r.integers(0, 2))], um=bool(r.integers(0, 2)), uv=bool(r.integers(0, 2)),
-                uw=bool(r.integers(0, 2)), **dict(zip(("steps", "conv"), [(None, float(10 ** r.uniform(-8, -1))), (int(r.integers(0, 300)), None), (int(r.integers(0, 300)), float(10 ** r.uniform(-8, -1)))][int(r.integers(0, 3))])),
+                uw=bool(r.integers(0, 2)), **dict(zip(("steps", "conv"), [(None, float(10 ** r.uniform(-8, -1))), (int(r.integers(0, 300)), None), (int(r.integers(0, 300)), float(10 ** r.uniform(-8, -1))), (None, 0.0), (int(r.integers(1, 300)), 0.0), (0, float(10 ** r.uniform(-8, -1))), (0, None)][int(r.integers(0, 7))])),  # incl. the boundary settings 0 and 0.0
                 trips=1 + int(r.integers(0, 3)), offer_ubm=bool(r.random() < 0.85))
 
 
